@@ -41,3 +41,33 @@ pub fn run(seed: u64, tier: &str, out: &mut Out) {
         out.emit(&case, &format!("{} ORACLE {verdict}", obs.join(" ")));
     }
 }
+
+/// C07 (schedules): real threads incrementing and decrementing clones of one bar concurrently; no update
+/// may be lost, whatever the interleaving, and the fraction stays within [0, 1] while they run.
+pub fn run_threads(seed: u64, tier: &str, out: &mut Out) {
+    let mut rng = Rng::new(seed ^ 0x7777);
+    let rounds = if tier == "thorough" { 200 } else { 12 };
+    for _ in 0..rounds {
+        let nthreads = *rng.pick(&[2usize, 3, 4, 8, 16]);
+        let per = *rng.pick(&[20_000u64, 50_000, 100_000]);
+        let start = *rng.pick(&[0u64, 5, u64::MAX - 1000, 1 << 63]);
+        let len = *rng.pick(&[None, Some(0u64), Some(1000), Some(u64::MAX)]);
+        let hidden = rng.chance(1, 2);
+        let rec = Recorder::new(5, 40, false);
+        let pb = ProgressBar::with_draw_target(len, if hidden { ProgressDrawTarget::hidden() } else { ProgressDrawTarget::term_like_with_hz(Box::new(rec.clone()), 20) });
+        pb.set_position(start);
+        let plans: Vec<(u64, u64)> = (0..nthreads).map(|_| (*rng.pick(&[1u64, 1, 2, 3, 7]), *rng.pick(&[0u64, 0, 1, 2]))).collect();   // (inc amount, dec amount)
+        let bad_fraction = std::sync::Arc::new(std::sync::atomic::AtomicBool::new(false));
+        let handles: Vec<_> = plans.iter().map(|&(i, d)| { let b = pb.clone(); let bf = bad_fraction.clone(); std::thread::spawn(move || {
+            for k in 0..per { b.inc(i); if d > 0 { b.dec(d); } if k % 4096 == 0 { let mut f = -1.0f32; b.update(|s| f = s.fraction()); if !(0.0..=1.0).contains(&f) { bf.store(true, std::sync::atomic::Ordering::Relaxed); } } }
+        }) }).collect();
+        for h in handles { h.join().unwrap(); }
+        let mut want = start;
+        for &(i, d) in &plans { want = want.wrapping_add(i.wrapping_mul(per)).wrapping_sub(d.wrapping_mul(per)); }
+        let got = pb.position();
+        let verdict = if got != want { format!("FAIL lost-updates {nthreads} threads x {per} calls: position {got}, expected {want} (start {start})") }
+            else if bad_fraction.load(std::sync::atomic::Ordering::Relaxed) { "FAIL fraction-out-of-range during concurrent updates".to_string() } else { "ok".into() };
+        std::mem::forget(pb);
+        out.emit(&format!("NOMODEL THREADS n={nthreads} per={per} start={start} len={len:?} hidden={hidden} plans={plans:?}"), &format!(" ORACLE {verdict}"));
+    }
+}
